@@ -315,7 +315,7 @@ async fn run_workload(w: &Workload, v: Variant) -> Value {
       let ep = bound(&rx).await;
       let addr = ep.trim_start_matches("tcp://").to_string();
       let (bytes, _) = transcript();
-      let hs_len = 64 + 2 + 28; // greeting + READY frame
+      let hs_len = 64 + 28; // greeting + READY frame (2-byte header + 26-byte body)
       let fault_s = fault.to_string();
       let raw = std::thread::spawn(move || {
         let mut s = std::net::TcpStream::connect(&addr).expect("raw connect");
@@ -394,14 +394,16 @@ async fn run_workload(w: &Workload, v: Variant) -> Value {
           _ => {}
         }
       }
-      let delivered = recv_all_msgs(&rx, 100).await.len();
+      let delivered_msgs = recv_all_msgs(&rx, 100).await;
+      let delivered = delivered_msgs.len();
+      let shapes: Vec<String> = delivered_msgs.iter().map(|m| format!("{} frames, first {}", m.len(), m.first().cloned().unwrap_or_default())).collect();
       // a healthy peer still gets through
       let tx = mk(&pctx, SocketType::Push, Variant { uring: false, zerocopy: false, multishot: false, cork: false }, &[]).await;
       tx.connect(&ep).await.expect("connect");
       wait_connected(&tx).await;
       let _ = tx.send(msg(b"healthy", false)).await;
       let healthy = matches!(tokio::time::timeout(Duration::from_secs(3), rx.recv()).await, Ok(Ok(ref m)) if m.data() == Some(&b"healthy"[..]));
-      json!({"raw_peer_saw": outcome, "events": evs, "delivered_from_faulty": delivered, "healthy_peer_served": healthy})
+      json!({"raw_peer_saw": outcome, "events": evs, "delivered_from_faulty": delivered, "healthy_peer_served": healthy, "_frames_per_delivered_message": shapes})
     }
     Workload::Backpressure { side, size } => {
       let rx = mk(&pctx, SocketType::Pull, v_for(*side, v, false), &[(o::RCVHWM, 4)]).await;
@@ -491,7 +493,7 @@ async fn run_workload(w: &Workload, v: Variant) -> Value {
       let raw = std::thread::spawn(move || {
         let mut s = std::net::TcpStream::connect(&addr).expect("raw connect");
         s.set_nodelay(true).ok();
-        let _ = s.write_all(&bytes[..64 + 2 + 28]);
+        let _ = s.write_all(&bytes[..64 + 28]);
         s.set_read_timeout(Some(Duration::from_millis(200))).ok();
         let t = Instant::now();
         let mut buf = [0u8; 4096];
@@ -571,7 +573,7 @@ fn workloads(thorough: bool, recv_size: usize, send_size: usize) -> Vec<Workload
   }
   let (bytes, _) = transcript();
   let n = bytes.len();
-  let mut cutsets: Vec<Vec<usize>> = vec![vec![], vec![64], vec![64 + 2 + 28 + 1], vec![n - 35_000], (1..40).collect()];
+  let mut cutsets: Vec<Vec<usize>> = vec![vec![], vec![64], vec![64 + 28 + 1], vec![n - 35_000], (1..40).collect()];
   if thorough {
     for c in [1usize, 10, 11, 63, 65, 66, 94, 101, n - 1] {
       cutsets.push(vec![c]);
